@@ -1,26 +1,27 @@
 CONSTANTS
  MaxLen = 2
  ReadSizes = {5}
- MaxDrops = 2
+ MaxDrops = 0
  MaxFails = 0
- MaxSeeks = 1
+ MaxSeeks = 0
  MaxAgain = 0
  RetryLimit = 3
  Schemes = {"reg"}
  Vias = {"reader"}
- Withs = {FALSE}
+ Withs = {TRUE, FALSE}
  Chunks = {5}
  LyingSizes = FALSE
  InlineData = FALSE
  Conc = 3
  Probes = FALSE
  Exts = {FALSE}
- KeepSlots = TRUE
+ KeepSlots = FALSE
  TarUnverified = FALSE
- MTs = {TRUE}
- DigestHdrs = {"served"}
-INIT Init
-NEXT Next
-VIEW View
-INVARIANTS TypeOK PCleanOk NeverSelfBlocked
+ MTs = {TRUE, FALSE}
+ DigestHdrs = {"absent", "echo", "served", "servedother", "garbage"}
+INIT GInit
+NEXT GNext
+INVARIANTS Emit
 CHECK_DEADLOCK FALSE
+CONSTANTS
+ Replies <- HdrReplies
